@@ -1,0 +1,104 @@
+//! Verification hooks (only compiled with `--cfg lzma_rs_verif`): operation-level
+//! access to the two LZ window implementations, so that an external harness can
+//! run sequences of window operations against a model.
+
+use crate::decode::lzbuffer::{LzAccumBuffer, LzBuffer, LzCircularBuffer};
+use std::io;
+
+/// Which window implementation is wrapped.
+enum Win<W: io::Write> {
+    Circ(LzCircularBuffer<W>),
+    Accum(LzAccumBuffer<W>),
+}
+
+/// A window under test.
+pub struct Window<W: io::Write>(Win<W>);
+
+impl<W: io::Write> std::fmt::Debug for Window<W> {
+    fn fmt(&self, fmt: &mut std::fmt::Formatter<'_>) -> std::fmt::Result {
+        fmt.debug_struct("Window").finish()
+    }
+}
+
+fn cvt<T>(r: crate::error::Result<T>) -> Result<T, String> {
+    r.map_err(|e| format!("{}", e))
+}
+
+impl<W: io::Write> Window<W> {
+    /// Circular window (LZMA).
+    pub fn circular(stream: W, dict_size: usize, memlimit: usize) -> Self {
+        Window(Win::Circ(LzCircularBuffer::from_stream(
+            stream, dict_size, memlimit,
+        )))
+    }
+    /// Accumulating window (LZMA2).
+    pub fn accum(stream: W, memlimit: usize) -> Self {
+        Window(Win::Accum(LzAccumBuffer::from_stream(stream, memlimit)))
+    }
+    /// `LzBuffer::len`.
+    pub fn len(&self) -> usize {
+        match &self.0 {
+            Win::Circ(b) => b.len(),
+            Win::Accum(b) => b.len(),
+        }
+    }
+    /// Number of bytes held in the internal buffer.
+    pub fn buf_len(&self) -> usize {
+        match &self.0 {
+            Win::Circ(b) => b.verif_buf_len(),
+            Win::Accum(b) => b.verif_buf_len(),
+        }
+    }
+    /// `LzBuffer::last_or`.
+    pub fn last_or(&self, lit: u8) -> u8 {
+        match &self.0 {
+            Win::Circ(b) => b.last_or(lit),
+            Win::Accum(b) => b.last_or(lit),
+        }
+    }
+    /// `LzBuffer::last_n`.
+    pub fn last_n(&self, dist: usize) -> Result<u8, String> {
+        match &self.0 {
+            Win::Circ(b) => cvt(b.last_n(dist)),
+            Win::Accum(b) => cvt(b.last_n(dist)),
+        }
+    }
+    /// `LzBuffer::append_literal`.
+    pub fn append_literal(&mut self, lit: u8) -> Result<(), String> {
+        match &mut self.0 {
+            Win::Circ(b) => cvt(b.append_literal(lit)),
+            Win::Accum(b) => cvt(b.append_literal(lit)),
+        }
+    }
+    /// `LzBuffer::append_lz`.
+    pub fn append_lz(&mut self, len: usize, dist: usize) -> Result<(), String> {
+        match &mut self.0 {
+            Win::Circ(b) => cvt(b.append_lz(len, dist)),
+            Win::Accum(b) => cvt(b.append_lz(len, dist)),
+        }
+    }
+    /// `LzAccumBuffer::append_bytes` (accumulating window only).
+    pub fn append_bytes(&mut self, buf: &[u8]) -> Result<(), String> {
+        match &mut self.0 {
+            Win::Circ(_) => Err("not an accumulating window".to_string()),
+            Win::Accum(b) => {
+                b.append_bytes(buf);
+                Ok(())
+            }
+        }
+    }
+    /// `LzAccumBuffer::reset` (accumulating window only).
+    pub fn reset(&mut self) -> Result<(), String> {
+        match &mut self.0 {
+            Win::Circ(_) => Err("not an accumulating window".to_string()),
+            Win::Accum(b) => b.reset().map_err(|e| format!("{}", e)),
+        }
+    }
+    /// `LzBuffer::finish`.
+    pub fn finish(self) -> Result<W, String> {
+        match self.0 {
+            Win::Circ(b) => b.finish().map_err(|e| format!("{}", e)),
+            Win::Accum(b) => b.finish().map_err(|e| format!("{}", e)),
+        }
+    }
+}
